@@ -96,21 +96,3 @@ Fixpoint ok_in (inb : list var) (l : lop) {struct l} : bool :=
       ok_in inb i && negb (mem_var v inb)
       && forallb (fun x => mem_var x (cert i) || negb (mem_var x inb)) (barg_vars args)
   end.
-
-(* no same-scope scan group contains the same quad pattern twice *)
-Fixpoint nodupb (l : list qpat) : bool :=
-  match l with
-  | [] => true
-  | x :: r => negb (existsb (PlanEquiv.qpat_eqb x) r) && nodupb r
-  end.
-Fixpoint nodup_groups (l : lop) : bool :=
-  match l with
-  | LJoin a b =>
-      match PlanEquiv.scan_scope (LJoin a b) with
-      | Some _ => nodupb (PlanEquiv.flatten_scans (LJoin a b))
-      | None => nodup_groups a && nodup_groups b
-      end
-  | LUnion bs => (fix go (bs : list lop) : bool := match bs with [] => true | b :: r => nodup_groups b && go r end) bs
-  | LGraph i _ | LSelection i _ | LSubquery i _ | LBind i _ _ => nodup_groups i
-  | _ => true
-  end.
